@@ -19,6 +19,8 @@ OPT_NOTE = ("optimiser model (coq/model/Optimiser.v) replayed bit-for-bit agains
             "MCOptimiser::optimise_state on scripted and real states")
 
 PROPS = {
+    "C02": dict(props_file="props/C02.v", engines=[("geom", dict(quick=[("C02", 8000)], thorough=[("C02", 400000)]))],
+                design="DESIGN.md section 4 C02"),
     "C03": dict(props_file="props/C03.v", engines=[("geom", dict(quick=[("C03", 8000)], thorough=[("C03", 400000)]))],
                 design="DESIGN.md section 4 C03"),
     "C13": dict(props_file="props/C13.v", engines=[("geom", dict(quick=[("C13", 20000)], thorough=[("C13", 2000000)]))],
